@@ -198,7 +198,7 @@ def process_chunk(arg):
                     S['outcomes'].add((sub, 'writer_declined'))
                     continue
                 extra = {}
-                mism = C.d2_compare(data, src, c['max_points'], extra)
+                mism = C.d2_compare(data, src, c['max_points'], extra, r.get('history') if c['kind'] == 'prophist' else None)
                 for k, v in extra.items():
                     inc(k, v)
                 S['outcomes'].add((sub, 'err=%d|%s' % (r['error'], ','.join(sorted(set(m[0] for m in mism))))))
@@ -239,34 +239,45 @@ def d2_plan(tier, fam):
     """-> list of (sub, description, [case ids])"""
     import itertools
     plans = []
+    MPS = (0, 5, 8, 40)
     for k in fam['kinds']:
         kind = k['kind']
         sizes = [d['size'] for d in k['dims']]
         members = list(itertools.product(*[range(s) for s in sizes]))
         ids = []
         polyish = kind in ('polygon', 'bigpolygon', 'nonsimple')
-        if tier == 'quick':
+        dimtxt = ' x '.join('%s(%d)' % (d['name'], d['size']) for d in k['dims'])
+        cid = lambda m, cfg, mp: 'd2:%s:%s:%d:%d' % (kind, ','.join(map(str, m)), cfg, mp)
+        if kind == 'prophist':
+            short = [m for m in members if m[4] == 0]
+            long_ = [m for m in members if m[4] != 0]
+            if tier == 'quick':
+                ids = [cid(m, n % 12, 0) for n, m in enumerate(short)]
+                desc = 'property histories: every sequence of <= 3 calls over {set attr 1/2 to one of 4 values, remove attr 1/2, nothing} on each of 4 element kinds (%d), library configuration cycled' % len(short)
+            else:
+                ids = [cid(m, cfg, 0) for m in short for cfg in range(12)] + [cid(m, n % 12, 0) for n, m in enumerate(long_)]
+                desc = 'property histories: every sequence of <= 3 calls (11-op alphabet) on each of 4 element kinds x all 12 library configurations, plus every sequence of exactly 4 calls with the configuration cycled'
+        elif tier == 'quick':
             if kind == 'bigpolygon':
                 members = [m for m in members if m in ((1, 0, 0), (3, 1, 1))]
             for n, m in enumerate(members):
-                mp = (0, 5, 8)[n % 3] if polyish else 0
-                ids.append('d2:%s:%s:%d:%d' % (kind, ','.join(map(str, m)), n % 12, mp))
-            desc = 'every member of the %s family (%s), library configuration (units x name parity x cell order) cycled' % (kind, ' x '.join('%s(%d)' % (d['name'], d['size']) for d in k['dims']))
+                ids.append(cid(m, n % 12, MPS[n % 4] if polyish else 0))
+            desc = 'every member of the %s family (%s), library configuration (units x name parity x cell order) cycled' % (kind, dimtxt)
             if polyish:
-                desc += ', max_points cycled over {0,5,8}'
+                desc += ', max_points cycled over {0,5,8,40}'
             if kind == 'bigpolygon':
                 desc = 'two members of the >8190-vertex family (8190 vertices plain; 8200 vertices with repetition and property), max_points {0,5}'
         else:
             cfgs = range(12) if kind != 'bigpolygon' else (0, 7)
             for n, m in enumerate(members):
                 for cfg in cfgs:
-                    for mp in ((0, 5, 8) if polyish else (0,)):
-                        if kind == 'bigpolygon' and mp == 5:
+                    for mp in (MPS if polyish else (0,)):
+                        if kind == 'bigpolygon' and mp in (5, 40):
                             continue
-                        ids.append('d2:%s:%s:%d:%d' % (kind, ','.join(map(str, m)), cfg, mp))
+                        ids.append(cid(m, cfg, mp))
             desc = 'every member of the %s family (%s) x %s library configurations%s' % (
-                kind, ' x '.join('%s(%d)' % (d['name'], d['size']) for d in k['dims']), 'all 12' if kind != 'bigpolygon' else '2',
-                ' x max_points {0,5,8}' if polyish and kind != 'bigpolygon' else (' x max_points {0,8}' if kind == 'bigpolygon' else ''))
+                kind, dimtxt, 'all 12' if kind != 'bigpolygon' else '2',
+                ' x max_points {0,5,8,40}' if polyish and kind != 'bigpolygon' else (' x max_points {0,8}' if kind == 'bigpolygon' else ''))
         plans.append(('d2.' + kind, desc, ids))
     return plans
 
@@ -327,7 +338,7 @@ def replay(exe, out, cid, scratch):
                 print('strict decoder model:\n' + json.dumps(G.to_jsonable(G.decode(data)['cells']))[:6000])
             except G.GdsError as e:
                 print('strict decoder REJECTS the file: %s' % e)
-            mism = C.d2_compare(data, r['source'], c['max_points'], {}) if r['error'] != 7 else []
+            mism = C.d2_compare(data, r['source'], c['max_points'], {}, r.get('history') if c['kind'] == 'prophist' else None) if r['error'] != 7 else []
         for cls, field, detail in mism:
             print('MISMATCH %s (%s): %s' % (cls, field, detail))
             out.emit({'type': 'violation', 'sub_check': 'replay', 'class': cls, 'tags': {'field': field}, 'case': {'id': cid}, 'detail': detail[:1500], 'replay_args': 'case=' + cid})
@@ -368,7 +379,7 @@ def main():
     expected = {sub: len(ids) for sub, desc, ids in plans}
     chunks = []
     for sub, desc, ids in plans:
-        step = 6 if sub in ('d2.bigpolygon', 'd2.bigarray') else CHUNK
+        step = 6 if sub in ('d2.bigpolygon', 'd2.bigarray') else (CHUNK if a.tier == 'quick' else 4 * CHUNK)
         for i in range(0, len(ids), step):
             chunks.append((len(chunks), ids[i:i + step], dims))
     out.emit({'type': 'note', 'text': 'C03 %s: %d files in %d chunks over %d workers; codec self-test passed' % (a.tier, sum(expected.values()), len(chunks), workers)})
